@@ -8,6 +8,7 @@
 From Coq Require Import Permutation.
 From LP Require Import Proofs.Tactics Proofs.Loop Proofs.Resume Proofs.FisherYates Proofs.Shuffle Proofs.Rng Proofs.Select
   Proofs.Filter Proofs.Resume3 Proofs.GuaranteedLoop Proofs.Leftover Proofs.Examples.
+From LP Require Import Proofs.Setup Proofs.SetupGt Proofs.SetupVested Proofs.SetupCover.
 Open Scope N_scope.
 
 (** After the completed base selection exactly [nr_winning] tickets are marked, they are distinct,
@@ -99,6 +100,38 @@ Theorem C03_leftover_step : forall (H : list N -> list N) v2 nrw last tot w o w'
   (forall t, status (st w) t = true -> status (st w') t = true).
 Proof. exact leftover_body_LInv. Qed.
 
+(** ** from deployment, whatever the set-up history and the interruption schedule *)
+
+(** launchpad / launchpad-locked-tokens: the winners are exactly the Fisher-Yates winners of the draws
+    of the seed, and there are min(configured at deployment, confirmed tickets) of them *)
+Theorem C03_from_deployment : forall (H : list N -> list N) v w0 lf wf ef bf w1 ls ws es bs w2 sd rest,
+  plain v -> setup_reach H v w0 ->
+  after_interrupted filter_tickets lf w0 = Some wf -> filter_tickets ef bf wf = Ok (w1, 0) ->
+  seeds w1 = sd :: rest ->
+  after_interrupted (select_winners H) ls w1 = Some ws -> select_winners H es bs ws = Ok (w2, 0) ->
+  exists e lp tpt0 ptok price0 nrw conf wsr claim x s (l : list (N * N)),
+    deploy v e lp tpt0 ptok price0 nrw conf wsr claim x = Ok s /\
+    let total := sumN (map (confirmed (st w0)) (map fst l)) in
+    let k := N.min nrw total in
+    let wins := fst (fy (N.to_nat k) (range_ids 1 total) (rng_words H (N.to_nat k) {| r_seed := sd; r_index := 0 |})) in
+    nr_winning (st w2) = k /\ (forall t, status (st w2) t = true <-> In t wins) /\ NoDup wins.
+Proof. exact deployed_plain_winners. Qed.
+
+(** the guaranteed-ticket contracts: after the distribution step, reported = marked =
+    min(configured at deployment, confirmed tickets) *)
+Theorem C03_from_deployment_gt : forall (H : list N -> list N) v w0 lf wf ef bf w1 ls ws es bs w2 sd rest ld wd ed bd w3,
+  guar v -> setup_reach_gt H v w0 ->
+  after_interrupted filter_tickets lf w0 = Some wf -> filter_tickets ef bf wf = Ok (w1, 0) ->
+  seeds w1 = sd :: rest ->
+  after_interrupted (select_winners H) ls w1 = Some ws -> select_winners H es bs ws = Ok (w2, 0) ->
+  after_interrupted (distribute_guaranteed_tickets H (vflag v)) ld w2 = Some wd ->
+  distribute_guaranteed_tickets H (vflag v) ed bd wd = Ok (w3, 0) ->
+  exists e lp tpt0 ptok price0 nrw conf wsr claim x s (l : list (N * N)),
+    deploy v e lp tpt0 ptok price0 nrw conf wsr claim x = Ok s /\
+    nr_winning (st w3) = N.min nrw (sumN (map (confirmed (st w0)) (map fst l))) /\
+    count_winning (st w3) (range_ids 1 (sumN (map (confirmed (st w0)) (map fst l)))) = nr_winning (st w3).
+Proof. exact deployed_final_winners. Qed.
+
 Example C03_nonvacuous :
   nr_winning (st base_selected) = 2 /\
   length (filter (status (st base_selected)) (range_ids 1 4)) = 2%nat /\
@@ -125,5 +158,7 @@ Print Assumptions C03_base_shape.
 Print Assumptions C03_final.
 Print Assumptions C03_final_ngt.
 Print Assumptions C03_leftover_step.
+Print Assumptions C03_from_deployment.
+Print Assumptions C03_from_deployment_gt.
 Print Assumptions C03_final_nonvacuous.
 Print Assumptions C03_nonvacuous.
